@@ -20,7 +20,7 @@ Record tflags := mkF { f_include : bool; f_respect : bool }.
 Record net := mkNet {
   n_junctions : list jrow;
   n_tables : list btable;          (* branch component tables in component_list order *)
-  n_extgrids : list (Z * bool);    (* ext_grid.junction, in_service *)
+  n_extgrids : list (Z * bool * bool);  (* ext_grid.junction, in_service, "p" in type *)
   n_sources : list Z               (* junctions where an in-service element fixes the pressure (property's reading) *)
 }.
 Record args := mkArgs {
@@ -53,7 +53,9 @@ Definition rows_of (n : net) (t : string) : list brow :=
 Definition closed_pi_pipes (n : net) : list Z :=
   map b_to (filter (fun r => b_pi r && negb (b_act r)) (rows_of n "valve")).
 
+(* since 515c489 rows of valves attached to a pipe are taken out of the edge table *)
 Definition row_in (a : args) (n : net) (t : string) (r : brow) : bool :=
+  negb (b_pi r) &&
   (negb (f_respect (flags_of (a_flags a) t)) || b_act r) &&
   negb (String.eqb t "pipe" && a_rs_valves a && memz (b_label r) (closed_pi_pipes n)).
 
@@ -71,11 +73,9 @@ Definition removed (a : args) (n : net) : list Z :=
 Definition edges (a : args) (n : net) : list edge :=
   filter (fun e => negb (memz (e_u e) (removed a n)) && negb (memz (e_v e) (removed a n))) (raw_edges a n).
 
-(* nodes before any removal: the end points of the edges; the junctions are added only when there are
-   fewer nodes than junctions (as the code does) *)
+(* nodes before any removal: the end points of the edges and (since 515c489 unconditionally) all junctions *)
 Definition nodes_all (a : args) (n : net) : list Z :=
-  let ends := dedupe (flat_map (fun e => [e_u e; e_v e]) (raw_edges a n)) in
-  if Nat.ltb (length ends) (length (n_junctions n)) then union ends (map j_label (n_junctions n)) else ends.
+  union (dedupe (flat_map (fun e => [e_u e; e_v e]) (raw_edges a n))) (map j_label (n_junctions n)).
 Definition nodes (a : args) (n : net) : list Z :=
   filter (fun x => negb (memz x (removed a n))) (nodes_all a n).
 (* notrav deletes one direction of the adjacency only (del mg._adj[b][i]); removing an out-of-service
@@ -115,7 +115,11 @@ Definition reach (a : args) (n : net) (seeds : list Z) : list Z :=
   iter (edges a n) (length (nodes a n)) (dedupe (filter (fun x => memz x (nodes a n)) seeds)).
 
 (* unsupplied_junctions(net): the nodes of components without an in-service ext grid junction *)
-Definition slacks_code (n : net) : list Z := map fst (filter snd (n_extgrids n)).
+(* since 515c489: in-service ext grids whose type contains "p", and the flow junctions (to-column) of in-service
+   circulation pumps *)
+Definition slacks_code (n : net) : list Z :=
+  map (fun g => fst (fst g)) (filter (fun g => snd (fst g) && snd g) (n_extgrids n)) ++
+  map b_to (filter b_act (rows_of n "circ_pump_mass" ++ rows_of n "circ_pump_pressure")).
 Definition unsupplied_with (a : args) (n : net) (slacks : list Z) : list Z :=
   let r := reach a n slacks in filter (fun x => negb (memz x r)) (nodes a n).
 Definition unsupplied (a : args) (n : net) : list Z := unsupplied_with a n (slacks_code n).
@@ -200,13 +204,16 @@ Definition unsup_ok (c : case) : bool :=
               stable (edges (k_args c) (k_net c)) (reach (k_args c) (k_net c) (slacks_code (k_net c)))
   end.
 
+(* the harness' reading of "pressure-fixing elements" agrees with the code's slack set *)
+Definition sources_ok (c : case) : bool := set_same (dedupe (slacks_code (k_net c))) (dedupe (n_sources (k_net c))).
+
 Definition case_ok (c : case) : bool :=
   if notrav_clash (k_args c) (k_net c) then true else      (* adjacency left inconsistent by the code: not modelled *)
   if fails (k_args c) (k_net c) then k_raised c else
   negb (k_raised c) &&
   edges_same (k_edges c) (graph_edges (k_args c) (k_net c)) &&
   set_same (k_nodes c) (nodes (k_args c) (k_net c)) &&
-  comps_ok c && unsup_ok c && dist_ok c.
+  comps_ok c && unsup_ok c && dist_ok c && sources_ok c.
 
 Fixpoint first_bad (cs : list case) (i : nat) : option nat :=
   match cs with [] => None | c :: r => if case_ok c then first_bad r (S i) else Some i end.
@@ -219,4 +226,4 @@ Definition which_bad (c : case) : Z :=
   if negb (Bool.eqb (fails (k_args c) (k_net c)) (k_raised c)) then 6 else if k_raised c then 0 else
   if negb (edges_same (k_edges c) (graph_edges (k_args c) (k_net c))) then 1
   else if negb (set_same (k_nodes c) (nodes (k_args c) (k_net c))) then 2
-  else if negb (comps_ok c) then 3 else if negb (unsup_ok c) then 4 else if negb (dist_ok c) then 5 else 0.
+  else if negb (comps_ok c) then 3 else if negb (unsup_ok c) then 4 else if negb (dist_ok c) then 5 else if negb (sources_ok c) then 7 else 0.
